@@ -654,6 +654,10 @@ void reftable_reader_free(struct reftable_reader *r)
 	reftable_free(r);
 }
 
+static int reftable_reader_refs_for_unindexed(struct reftable_reader *r,
+					      struct reftable_iterator *it,
+					      uint8_t *oid);
+
 static int reftable_reader_refs_for_indexed(struct reftable_reader *r,
 					    struct reftable_iterator *it,
 					    uint8_t *oid)
@@ -692,6 +696,14 @@ static int reftable_reader_refs_for_indexed(struct reftable_reader *r,
 		/* didn't find it; return empty iterator */
 		iterator_set_empty(it);
 		err = 0;
+		goto done;
+	}
+
+	if (got.offset_len == 0) {
+		/* The writer omits the position list of an object that is
+		   referenced from too many blocks to fit the record: the
+		   object is there, the refs have to be found by a scan. */
+		err = reftable_reader_refs_for_unindexed(r, it, oid);
 		goto done;
 	}
 
